@@ -10,19 +10,30 @@ NOTES = {
  "C19-m4": "caught by C05 (live twin vs restored twin differ): the change is invisible across hash seeds, it depends on where the conductor was restored",
  "C02-m6": "caught by C12 (an item that acknowledged with `canceling` is no longer counted as in flight): C02's provider does not send intermediate statuses",
  "C01-m4": "caught by C16 (an action result that is itself a falsy value - 0, false, '', [], {} - arrives as null); C01's own action results are non-empty mappings, so none of its conditions tells them apart",
- "C12-m3": "not caught: needs a provider that relays an item's intermediate `canceling` / `pausing` status while a sibling item completes; the simulated provider reports running, pending and final statuses only (stated limit of the provider vocabulary)",
+ "C12-m3": "caught since in-flight items may acknowledge a cancellation with `canceling` (round 3)",
  "C12-m4": "caught by C17 (rerun of a with-items task whose failed item has a lower index than a succeeded one: the succeeded item is repeated, the failed one never runs); C12 itself never reruns",
  "C07-m1": "not caught: manifests only after an explicit rerun of a succeeded task upstream of a split followed by a fork and join; no generator requests reruns of succeeded upstream tasks",
- "C07-m2": "not caught: manifests only for a join inside a cycle (or a rerun from upstream of a join that already ran); joins inside cycles are outside the generated domain (stated bound: a late arrival and a next-iteration arrival are indistinguishable there)",
  "C17-m1": "not caught as a property violation: since fix R10 a request whose tasks all collapse is rejected instead of leaving the workflow resuming forever; the statement says when a rerun may be accepted, not that it must be (the demo, which expects acceptance, still fails)",
  "C08-m1": "caught by C07 (the join is offered without a satisfied barrier / the workflow succeeds with an unreachable join); C08's own order comparison did not hit the order pair within the quick budget",
 }
 names = sorted(os.listdir(os.path.join(ROOT, "seeded")))
 names = [n for n in names if os.path.isdir(os.path.join(ROOT, "seeded", n))]
 only = sys.argv[1:]
+readme_only = only == ["--readme"]
+if readme_only:
+    only = []
 rows = []
 for n in names:
     if only and n not in only:
+        continue
+    if readme_only:
+        meta = json.load(open(os.path.join(ROOT, "seeded", n, "meta.json")))
+        if n in NOTES:
+            meta["note"] = NOTES[n]
+        else:
+            meta.pop("note", None)
+        json.dump(meta, open(os.path.join(ROOT, "seeded", n, "meta.json"), "w"), indent=1)
+        rows.append((n, meta.get("caught_by") or [], meta.get("checks_run_against_it") or {}, NOTES.get(n, "")))
         continue
     prop = n.split("-")[0]
     d = tempfile.mkdtemp(prefix="orqmut.", dir="/var/tmp")
